@@ -40,6 +40,9 @@ claimed = {
  "C13": ("proof", "DESIGN.md section 4 C13",
    "Unbounded deductive proof relative to a model of package time in which the zone offset is an uninterpreted function (all zones at once): every date producer (ToDate, ParseDate, the wire decoders of Date, DateTime, SystemDate, SystemTime) has a `civil` postcondition - if the civil day / date-time exists in the process-local zone the result has exactly the requested fields - and the encoders write exactly the civil fields. On the current tree the date clauses are provable only under the additional hypothesis that local midnight exists on that day: the missing-midnight case is a genuine defect recorded as four known findings (known_findings.txt), each replayed on the real code.",
    BASE_NOTE + "; the time model (spec/time.spec: time.Date algorithm abs = C - off(C - off(C)), documented guarantee when the civil time exists, calendar bijection) is assumed; the status recombination closures are covered through the decoder contracts only"),
+ "C14": ("other", "DESIGN.md section 4 C14",
+   "Partially decided (level 'other'): deductive proof for the leaf types whose parser is repository code over a string - HH:mm (String / HHmmFromString / JSON: accepted exactly in 00:00..24:00 with minutes <= 59, everything else of that form rejected, decode(encode(v)) == v), door control state JSON (exactly the three names), Date JSON and text (blank <-> zero, impossible dates rejected, civil value kept when the day exists in the zone), and the text forms of the four address types (with C15). Card, TimeProfile, Task, Weekdays, Segments, DateTime, Version, MacAddress, TaskType by name, CardFormat and PIN are NOT decided: their decoders delegate to encoding/json's reflective decoding, fmt.Sscanf, net.ParseMAC or variable-width text, for which the engine has no contract.",
+   BASE_NOTE + "; encoding/json on strings is an abstract quoting; two known findings (dates whose local midnight does not exist, same defect as C13)"),
  "C15": ("proof", "DESIGN.md section 4 C15",
    "Unbounded deductive proof over abstract strings: the four parsers are verified against postconditions stated with the grammar predicates isQuadPort / isQuad / hasQuad (accept with exactly that address and port under the role's port rule, default ports 0 / 60000 / 60000 / mandatory, reject when the rule is violated, reject strings without a dotted quad); Parse(String(a)) == a for accepted addresses is a lemma function per role verified from the parser contracts.",
    BASE_NOTE + "; assumed: what the two unanchored regular expressions and netip.ParseAddrPort/ParseAddr do on strings of the exact dotted-quad[:port] form and on strings without a dotted quad (axioms in spec/addr.spec); strings with text around a dotted quad are not decided"),
